@@ -280,7 +280,14 @@ def run(tier, seed):
                 res[k] = o
     for k in range(len(slices)):
         outs += res[k]
-    base_digest = None
+    # reference digest of the untouched sentinel = the most frequent one (a corpus case may change it in the first case)
+    import collections
+    dcount = collections.Counter()
+    for l in outs:
+        m = re.search(r" S:([0-9a-f]{16})", l)
+        if m:
+            dcount[m.group(1)] += 1
+    base_digest = dcount.most_common(1)[0][0] if dcount else None
     nviol = 0
     blocked_seen = admitted_seen = 0
     known_hits = {}
